@@ -473,6 +473,107 @@ pub fn run_hashes<T: Case + Hash + PartialEq, W: Write>(out: &mut Out<W>, dom: &
     ));
 }
 
+// ---------------------------------------------------------------- layout matrix (C04)
+
+/// A value with neighbour bytes: the value sits at offset 0 of a `#[repr(C)]` pair whose second member is
+/// seven bytes of a chosen pattern; the whole cell is first filled with the pattern, so padding inside `T`
+/// (and any byte the value itself does not initialise) carries the pattern as well.
+#[repr(C)]
+pub struct Cell<T>(pub T, pub [u8; 7]);
+
+pub fn place<T>(val: T, pattern: u8) -> Box<std::mem::MaybeUninit<Cell<T>>> {
+    let mut b: Box<std::mem::MaybeUninit<Cell<T>>> = Box::new(std::mem::MaybeUninit::uninit());
+    unsafe {
+        std::ptr::write_bytes(b.as_mut_ptr() as *mut u8, pattern, std::mem::size_of::<Cell<T>>());
+        std::ptr::write(std::ptr::addr_of_mut!((*b.as_mut_ptr()).0), val);
+    }
+    b
+}
+
+fn cell_ref<T>(b: &std::mem::MaybeUninit<Cell<T>>) -> &T {
+    unsafe { &*std::ptr::addr_of!((*b.as_ptr()).0) }
+}
+
+fn drop_cell<T>(mut b: Box<std::mem::MaybeUninit<Cell<T>>>) {
+    unsafe { std::ptr::drop_in_place(std::ptr::addr_of_mut!((*b.as_mut_ptr()).0)) }
+}
+
+const PLACEMENTS: [(u8, u8); 3] = [(0x00, 0x00), (0xFF, 0x00), (0xA5, 0xFF)];
+
+/// cmp / partial_cmp of every ordered pair, each repeated under three neighbour-byte placements
+pub fn run_cmp_layout<T: Case + PartialOrd, W: Write>(out: &mut Out<W>, dom: &[i8], total: Option<&dyn Fn(&T, &T) -> Ordering>) {
+    let vals = all_values::<T>(dom);
+    for a in vals.iter() {
+        for b in vals.iter() {
+            let mut prets = Vec::new();
+            let mut crets = Vec::new();
+            let mut panicked = false;
+            for (pa, pb) in PLACEMENTS.iter() {
+                let x = place(T::make(0, a.v, &a.f), *pa);
+                let y = place(T::make(1, b.v, &b.f), *pb);
+                match guarded(|| cell_ref(&x).partial_cmp(cell_ref(&y))) {
+                    Ok(r) => prets.push(format!("\"{}\"", pord_name(r))),
+                    Err(_) => panicked = true,
+                }
+                if let Some(f) = total {
+                    match guarded(|| f(cell_ref(&x), cell_ref(&y))) {
+                        Ok(r) => crets.push(format!("\"{}\"", ord_name(r))),
+                        Err(_) => panicked = true,
+                    }
+                }
+                log_take();
+                drop_cell(x);
+                drop_cell(y);
+            }
+            if panicked {
+                out.rec(&format!("\"ev\":\"op\",\"t\":{},\"op\":\"panic\",\"in\":\"cmp_layout\",\"a\":{},\"b\":{}", T::ID, a.json(), b.json()));
+                continue;
+            }
+            out.rec(&format!(
+                "\"ev\":\"op\",\"t\":{},\"op\":\"cmp_layout\",\"a\":{},\"b\":{},\"prets\":[{}],\"crets\":[{}]",
+                T::ID, a.json(), b.json(), prets.join(","), crets.join(",")
+            ));
+        }
+    }
+}
+
+pub fn total_cmp_of<T: Ord>(a: &T, b: &T) -> Ordering {
+    a.cmp(b)
+}
+
+/// payload constructors: order-preserving, injective on {0, 1, 2}
+pub fn mk_bool(v: i8) -> bool {
+    v != 0
+}
+pub fn mk_u64(v: i8) -> u64 {
+    v as u64
+}
+pub fn mk_char(v: i8) -> char {
+    (b'a' + v as u8) as char
+}
+pub fn mk_str(v: i8) -> &'static str {
+    ["a", "b", "c"][v as usize]
+}
+pub fn mk_nz(v: i8) -> std::num::NonZeroU8 {
+    std::num::NonZeroU8::new(v as u8 + 1).unwrap()
+}
+pub fn mk_opt(v: i8) -> Option<u8> {
+    if v == 0 {
+        None
+    } else {
+        Some(v as u8 - 1)
+    }
+}
+#[derive(PartialEq, Eq, PartialOrd, Ord, Hash, Debug, Clone, Copy)]
+pub enum Inner {
+    A,
+    B,
+    C,
+}
+pub fn mk_nested(v: i8) -> Inner {
+    [Inner::A, Inner::B, Inner::C][v as usize]
+}
+
 /// the value domain extended with the incomparable value
 pub fn with_nan(dom: &[i8]) -> Vec<i8> {
     let mut d = dom.to_vec();
